@@ -465,7 +465,7 @@ class IntegerSequence(SequenceBase):
         else:
             prev_point = point - self.i_step
         ret = self._get_point_in_bounds(prev_point)
-        if self.exclusions and ret in self.exclusions:
+        if self.exclusions and ret and ret in self.exclusions:
             return self.get_prev_point(ret)
         return ret
 
@@ -473,7 +473,7 @@ class IntegerSequence(SequenceBase):
         """Return the largest point < some arbitrary point."""
         if self.is_on_sequence(point):
             return self.get_prev_point(point)
-        sequence_point = self._get_point_in_bounds(self.p_start)
+        sequence_point = self.get_first_point(self.p_start)
         prev_point = None
         while sequence_point is not None:
             if sequence_point > point:
@@ -481,7 +481,7 @@ class IntegerSequence(SequenceBase):
                 break
             prev_point = sequence_point
             sequence_point = self.get_next_point(sequence_point)
-        if self.exclusions and prev_point in self.exclusions:
+        if self.exclusions and prev_point and prev_point in self.exclusions:
             return self.get_nearest_prev_point(prev_point)
         return prev_point
 
@@ -534,7 +534,11 @@ class IntegerSequence(SequenceBase):
 
     def get_stop_point(self):
         """Return the last point in this sequence, or None if unbounded."""
-        if self.exclusions and self.p_stop in self.exclusions:
+        if (
+            self.exclusions
+            and self.p_stop
+            and self.p_stop in self.exclusions
+        ):
             return self.get_prev_point(self.p_stop)
         return self.p_stop
 
